@@ -1949,6 +1949,10 @@ impl Segment {
 }
 
 fn syscall_alloc(size: usize) -> (*mut u8, usize, u32) {
+    #[cfg(tiny_std_verif)]
+    if let Some(r) = crate::verif_alloc::os_hook_alloc(size) {
+        return r;
+    }
     let addr = unsafe { syscall!(MMAP, 0, size, 2 | 1, 0x0020 | 0x0002, -1isize, 0) };
     if is_syscall_error(addr) {
         (ptr::null_mut(), 0, 0)
@@ -1958,6 +1962,10 @@ fn syscall_alloc(size: usize) -> (*mut u8, usize, u32) {
 }
 
 fn syscall_remap(ptr: *mut u8, oldsize: usize, newsize: usize, can_move: bool) -> *mut u8 {
+    #[cfg(tiny_std_verif)]
+    if let Some(r) = crate::verif_alloc::os_hook_remap(ptr, oldsize, newsize, can_move) {
+        return r;
+    }
     let flags = i32::from(can_move);
     let ptr = unsafe { syscall!(MREMAP, ptr, oldsize, newsize, flags) };
     if is_syscall_error(ptr) {
@@ -1968,6 +1976,10 @@ fn syscall_remap(ptr: *mut u8, oldsize: usize, newsize: usize, can_move: bool) -
 }
 
 fn syscall_free_part(ptr: *mut u8, oldsize: usize, newsize: usize) -> bool {
+    #[cfg(tiny_std_verif)]
+    if let Some(r) = crate::verif_alloc::os_hook_free_part(ptr, oldsize, newsize) {
+        return r;
+    }
     unsafe {
         let remap_ptr = syscall!(MREMAP, ptr, oldsize, newsize, 0);
         if is_syscall_error(remap_ptr) {
@@ -1979,7 +1991,58 @@ fn syscall_free_part(ptr: *mut u8, oldsize: usize, newsize: usize) -> bool {
 }
 
 fn syscall_free(ptr: *mut u8, size: usize) -> bool {
+    #[cfg(tiny_std_verif)]
+    if let Some(r) = crate::verif_alloc::os_hook_free(ptr, size) {
+        return r;
+    }
     unsafe { syscall!(MUNMAP, ptr, size) == 0 }
+}
+
+/// Read-only accessors for the verification harness, only compiled with
+/// `--cfg tiny_std_verif`.
+#[cfg(tiny_std_verif)]
+impl Dlmalloc {
+    /// Bytes currently obtained from the operating system, by the allocator's own book-keeping.
+    #[must_use]
+    pub fn verif_footprint(&self) -> usize {
+        self.footprint
+    }
+
+    /// Visits every chunk of every segment in address order within a segment:
+    /// `f(segment index, chunk address, chunk size, kind)` with kind 0 = free (binned),
+    /// 1 = in use, 2 = designated victim, 3 = top.
+    ///
+    /// # Safety
+    /// The heap must be in a consistent state (no call in progress).
+    pub unsafe fn verif_heap_walk(&self, f: &mut dyn FnMut(usize, usize, usize, u8)) {
+        if self.top.is_null() {
+            return;
+        }
+        let mut seg_idx = 0;
+        let mut s = ptr::addr_of!(self.seg).cast_mut();
+        while !s.is_null() {
+            let mut q = Self::align_as_chunk((*s).base);
+            while Segment::holds(s, q.cast()) && q != self.top && (*q).head != Chunk::FENCEPOST_HEAD
+            {
+                let size = Chunk::size(q);
+                let kind = if q == self.dv {
+                    2
+                } else {
+                    u8::from(Chunk::inuse(q))
+                };
+                f(seg_idx, q as usize, size, kind);
+                if size == 0 {
+                    break;
+                }
+                q = Chunk::plus_offset(q, size);
+            }
+            if q == self.top {
+                f(seg_idx, q as usize, self.topsize, 3);
+            }
+            seg_idx += 1;
+            s = (*s).next;
+        }
+    }
 }
 
 #[cfg(test)]
